@@ -304,6 +304,61 @@ package minersc
 //@   ensures[the-round-is-not-touched] pn.CurrentRound == old(pn.CurrentRound)
 //@   modifies everything
 
+// The move conditions (the dispatch-table entries setPhaseNode calls): each answers nil only if the lists
+// it loaded still hold a miner and a sharder of the previous set and enough members, and each leaves the
+// phase node alone (which discharges the frame setPhaseNode assumes for its dynamic calls).
+//   prevMinerIn(gn, l) / prevSharderIn(gn, l)   the list object l holds a miner / sharder of the previous
+//                                               magic block (what the trusted hasPrev* loops compute)
+//@ uf prevMinerIn (Ptr Ptr) Bool
+//@ uf prevSharderIn (Ptr Ptr) Bool
+//@ func (*GlobalNode).hasPrevMiner
+//@   trusted
+//@   ensures has == prevMinerIn(gn, miners)
+//@   modifies nothing
+//@ func (*GlobalNode).hasPrevMinerInMPKs
+//@   trusted
+//@   ensures has == prevMinerIn(gn, mpks)
+//@   modifies nothing
+//@ func (*GlobalNode).hasPrevMinerInGSoS
+//@   trusted
+//@   ensures has == prevMinerIn(gn, gsos)
+//@   modifies nothing
+//@ func (*GlobalNode).hasPrevShader
+//@   trusted
+//@   ensures has == prevSharderIn(gn, sharders)
+//@   modifies nothing
+//@ func (*MinerSmartContract).getMinersList
+//@   trusted
+//@   ensures result1 == nil ==> result0 == nil || fresh(result0)
+//@   modifies nothing
+//@ func getAllShardersList
+//@   trusted
+//@   ensures result1 == nil ==> result0 != nil && fresh(result0)
+//@   modifies nothing
+//@ func getShardersKeepList
+//@   trusted
+//@   ensures result1 == nil ==> result0 != nil && fresh(result0)
+//@   modifies nothing
+//@ func (*MinerSmartContract).moveToContribute
+//@   prop C38
+//@   requires msc != nil && pn != nil && gn != nil && balances != nil
+//@   dead-paths 1 -- the number of sharders is compared with min_s twice; the second comparison cannot fail
+//@   at-return assert[condition-to-leave-start] result == nil ==> prevSharderIn(gn, allShardersList) && prevMinerIn(gn, allMinersList) && len(allMinersList.Nodes) >= dkgMinersList.K && len(allShardersList.Nodes) >= gn.MinS
+//@   ensures[leaves-the-phase-node-alone] pn.Phase == old(pn.Phase) && pn.StartRound == old(pn.StartRound) && pn.CurrentRound == old(pn.CurrentRound) && pn.Restarts == old(pn.Restarts)
+//@ func (*MinerSmartContract).moveToShareOrPublish
+//@   prop C38
+//@   requires msc != nil && pn != nil && gn != nil && balances != nil
+//@   at-return assert[condition-to-leave-contribute] result == nil ==> prevSharderIn(gn, shardersKeep) && len(shardersKeep.Nodes) >= gn.MinS && prevMinerIn(gn, mpks) && len(mpks.Mpks) >= dkgMinersList.K
+//@   ensures[leaves-the-phase-node-alone] pn.Phase == old(pn.Phase) && pn.StartRound == old(pn.StartRound) && pn.CurrentRound == old(pn.CurrentRound) && pn.Restarts == old(pn.Restarts)
+//@ func (*MinerSmartContract).moveToWait
+//@   prop C38
+//@   requires msc != nil && pn != nil && gn != nil && balances != nil
+//@   at-return assert[condition-to-leave-publish] result == nil ==> prevMinerIn(gn, gsos) && len(gsos.Shares) >= dkgMinersList.K
+//@   ensures[leaves-the-phase-node-alone] pn.Phase == old(pn.Phase) && pn.StartRound == old(pn.StartRound) && pn.CurrentRound == old(pn.CurrentRound) && pn.Restarts == old(pn.Restarts)
+//@ func (*MinerSmartContract).moveToStart
+//@   prop C38
+//@   ensures[leaves-the-phase-node-alone] pn.Phase == old(pn.Phase) && pn.StartRound == old(pn.StartRound) && pn.CurrentRound == old(pn.CurrentRound) && pn.Restarts == old(pn.Restarts)
+
 // DKG transactions: a public key / the shares / a wait confirmation is recorded (the list is written to
 // state) only in its own phase and only for a sender that takes part in this key generation; a public
 // key has exactly T components, a share message at least K-1 entries.
